@@ -32,7 +32,7 @@ def check(run):
     R = run
     R.rule('C06.shared', 'objects created once per class / per function definition (class-level attributes, parameter '
            'defaults) are only read: no buffer, validator, poll object, header list or option dict is shared between '
-           'connections', 2)
+           'connections', 1)
     from .common import shared_state
     shared_state(R, 'C06.shared')
     R.rule('C06.wiring', 'option name -> constructor slot -> field -> zlib constructor argument / reset-flag test, '
@@ -83,13 +83,26 @@ def parse_ext(R):
             entries.append((n.targets[0].slice, n.value, n))
         elif isinstance(n, ast.DictComp):
             entries.append((n.key, n.value, n))
+        elif isinstance(n, ast.Call) and isinstance(n.func, ast.Name) and n.func.id == 'dict' and len(n.args) == 1 \
+                and isinstance(n.args[0], (ast.GeneratorExp, ast.ListComp)):
+            elt = n.args[0].elt
+            if isinstance(elt, ast.Tuple) and len(elt.elts) == 2:
+                entries.append((elt.elts[0], elt.elts[1], n))
+            elif isinstance(elt, ast.Call) and isinstance(elt.func, ast.Name):
+                # dict(helper(token) for token in ...): the pair is what the helper returns
+                hf = R.prog.funcs.get(f.module.name + '.' + elt.func.id)
+                if hf is not None:
+                    for r_ in own_nodes(hf.node):
+                        if isinstance(r_, ast.Return) and isinstance(r_.value, ast.Tuple) and len(r_.value.elts) == 2:
+                            entries.append((r_.value.elts[0], r_.value.elts[1], (r_, hf)))
     need(entries, 'parse_extension: option entries not found')
 
     def stripped(e, node):
         # the expression (or the single definition of the name it reads) ends in .strip(...)
         seen = 0
+        fnode = node[1].node if isinstance(node, tuple) else f.node
         while isinstance(e, ast.Name) and seen < 3:
-            cands = [s_ for s_ in own_nodes(f.node) if isinstance(s_, ast.Assign) and any(
+            cands = [s_ for s_ in own_nodes(fnode) if isinstance(s_, ast.Assign) and any(
                 isinstance(t, ast.Name) and t.id == e.id for t in s_.targets)]
             if len(cands) != 1:
                 return False
@@ -99,8 +112,9 @@ def parse_ext(R):
     for (k, v, n) in entries:
         R.ob('C06.parse', 'option names are stripped', stripped(k, n),
              'option key `%s` is stored without .strip(): `name = value` (white space before "=") lands under a key with '
-             'trailing space and the negotiated parameter is silently ignored' % U(k), func=f, node=n)
-        R.ob('C06.parse', 'option values are stripped', stripped(v, n), 'option value `%s` not stripped' % U(v), func=f, node=n)
+             'trailing space and the negotiated parameter is silently ignored' % U(k), func=f, node=(n[0] if isinstance(n, tuple) else n))
+        R.ob('C06.parse', 'option values are stripped', stripped(v, n), 'option value `%s` not stripped' % U(v), func=f,
+             node=(n[0] if isinstance(n, tuple) else n))
     rets = [s_ for s_ in own_nodes(f.node) if isinstance(s_, ast.Return)]
     R.ob('C06.parse', 'returns (token, options)', len(rets) == 1 and isinstance(rets[0].value, ast.Tuple) and len(rets[0].value.elts) == 2,
          'parse_extension returns %s' % [U(r.value) for r in rets], func=f, node=None, construct='parse_extension return')
